@@ -1,8 +1,14 @@
 """C15 - query rewriting never changes what a query means.
 
-Differential + reference-model monitor.  For generated query trees over all public query types and
-generated indexes (vf.model histories: 1..4 segments, deletions, multi-token fields) every rewrite the
-statement names is applied to the tree and the rewritten query is run on the real engine:
+Differential + reference-model monitor.  Query trees come from two sources: (1) a generator over all public
+query types (Term, And, Or, Not, AndNot, AndMaybe, Require, Otherwise, DisjunctionMax, Phrase, Prefix, Wildcard
+incl. [] classes, Regex, TermRange (overlapping, duplicate, reversed, degenerate), NumericRange, DateRange,
+FuzzyTerm, Variations, Every, NullQuery, ConstantScoreQuery, empty compounds, nested same-type compounds with
+boosts, duplicate and near-duplicate clauses, Sequence/Ordered and the span queries, NestedParent/NestedChildren
+over a grouped corpus) and (2) what QueryParser.parse(text, normalize=False) builds for generated query strings
+(incl. stop words), i.e. the trees the parser hands to normalize().  Indexes are built by vf.model from generated
+histories (1..4 segments, deletions, multi-token fields).  Every rewrite the statement names is applied and the
+rewritten query is run on the real engine:
 
     normalize, normalize(normalize), & | - , with_boost, replace(absent), accept/apply(identity),
     copy.copy / copy.deepcopy / Query.copy / pickle, simplify(reader), estimate_size(reader)
@@ -11,14 +17,16 @@ Oracle (two sides, both must agree): keys(docs_for_query(rewrite(q))) == keys(do
 real engine (matcher-level defects cancel) and == the independent evaluator (vf.model.matches + the
 set-level extension below) applied to the ORIGINAL tree (a rewrite cannot hide behind a matcher defect).
 Every single normalize() step (one node whose children are already normalised) is additionally compared
-locally under the model, which is what lets a disagreement be attributed to one mechanism.
+locally under the evaluator, which is what lets a disagreement be attributed to one mechanism; simplify() is
+decomposed into the expansion of its leaves (each judged strictly) followed by normalize() steps.
 
 Populations (DESIGN 1.4): a tree is in population B when it contains a construct that can trigger a listed
 finding (syntactic, conservative predicate `triggers`), else in population A.  In A every disagreement is a
-violation.  In B a disagreement is first judged strictly; otherwise each deviating local normalize step must be
-*exactly* a listed mechanism (second oracle: the model semantics of the step's input transformed by the
-listed mechanism equals the model semantics of the step's output), and the engine result of the rewritten
-query must equal the model semantics of the normalised tree; only then it is reported as `known:<id>`.
+violation (and reaching a listed mechanism is a harness error).  In B a disagreement is first judged strictly;
+otherwise each deviating local normalize step must be *exactly* a listed mechanism (second oracle: the
+semantics of the step's input transformed by the listed mechanism equals the semantics of the step's output),
+the rewritten query must be the composition of those steps, and the engine result of the rewritten query must
+equal the model semantics of that normal form; only then it is reported as `known:<id>`.
 """
 import copy
 import datetime
@@ -26,12 +34,13 @@ import itertools
 import pickle
 
 LEVEL = "exploration"
-RULE = ("case = (history -> index with 1..4 segments, deletions, multi-token fields; query tree of depth <= 4 over all public "
-        "query types incl. Every, NullQuery, empty compounds, duplicate/overlapping ranges, nested same-type compounds with "
-        "boosts, binary operators, Sequence/Ordered and span queries) x 20 rewrites {normalize, normalize^2, &, |, -, with_boost, "
-        "replace(absent), accept(id), apply(id), copy, deepcopy, Query.copy, pickle(2), pickle(HIGHEST), simplify, estimate_size, "
-        "eq/hash of copies, no-mutation, per-node normalize steps}; non-trivial when the expected set of the original is neither "
-        "empty nor all live documents; distinct = (query type tree, population).")
+RULE = ("case = (history -> index with 1..4 segments, deletions, multi-token fields, or a grouped parent/child corpus; query tree of "
+        "depth <= 4 over all public query types incl. Every, NullQuery, empty compounds, duplicate/overlapping/reversed ranges, nested "
+        "same-type compounds with boosts, near-duplicate clauses, binary operators, Sequence/Ordered, span and Nested* queries, or the "
+        "un-normalised tree the query parser builds for a generated string) x rewrites {normalize, normalize^2, &, |, - (one of the three "
+        "per tree in the quick tier), with_boost, replace(absent), accept(id), apply(id), copy, deepcopy, Query.copy, pickle(2), "
+        "pickle(HIGHEST), simplify, estimate_size, eq/hash of copies, no-mutation, per-node normalize steps}; non-trivial when the "
+        "expected set of the original is neither empty nor all live documents; distinct = (query type tree, population).")
 ASSUMPTIONS = [
     "documented meaning of the original = vf.model.matches (set algebra over live documents; AndMaybe = first operand; DisjunctionMax = Or; "
     "Every(f) = documents with a term in f; Wildcard = fnmatch incl. [] classes; TermRange over term text order on every token of a "
@@ -46,6 +55,15 @@ ASSUMPTIONS = [
     "estimate_min_size is observed and counted only (the statement does not mention it)",
     "equal-implies-equal-hash is demanded only for a query and its own copies (copy/deepcopy/pickle), where equality is certain",
     "with_boost uses strictly positive boosts; Or.minmatch/scale are left at their defaults",
+    "a rewritten query that is attribute-for-attribute identical to the original (plain recursive __dict__ comparison, not the "
+    "library's ==) is not run again: it cannot behave differently (counted under c15.rw.structurally_identical)",
+    "FuzzyTerm texts/distances are restricted to those where plain and transposition-aware edit distance agree on the whole "
+    "vocabulary (FuzzyTerm.simplify() expands over the whole reader, the matcher per segment: that difference is C19's listed subject)",
+    "NestedParent/NestedChildren are generated only at the root or directly under a root Or/Not, over groups with at least one child and "
+    "without deletions, and are not combined with & / -: their matchers do not implement skip_to() faithfully (matcher-level subject, "
+    "outside this property); their model is 'parent of every matching document' / 'all children of the wanted parents'",
+    "parser-built trees: parse errors and QueryError for phrases on fields without positions are the parser property's subject (C16) and skipped",
+    "ColumnQuery, WeightingQuery and the internal Or variants (DefaultOr, SplitOr, PreloadedOr) are not generated",
 ]
 SHARDS = {"quick": 4, "thorough": 16}
 BUDGET_S = {"quick": 70, "thorough": 600}
@@ -201,6 +219,8 @@ class Gen(object):
         self.range_fields.add(f)
         pool = RANGE_POOL[f]
         a, b = sorted([rng.choice(pool), rng.choice(pool)])
+        if rng.random() < 0.08:
+            a, b = b, a       # reversed bounds: matches nothing, must stay so through merging
         r = rng.random()
         if r < 0.2:
             a = None
@@ -857,10 +877,13 @@ def check_tree(case, rng, q, q2):
             return True
         if tpop == "B" and analysis is not None and analysis.known and not analysis.unknown and same_struct(analysis.result, rq):
             # second oracle: every deviating normalize step is exactly a listed mechanism (verified step by step under the
-            # evaluator) and the rewritten query is the composition of those steps
-            ctx.count("c15.popB.explained_by_listed")
-            report_known(tree, name, rq, analysis)
-            return True
+            # evaluator), the rewritten query is the composition of those steps, and the engine returns what the model says
+            # that normal form means
+            nsem = try_sem(rq, live)
+            if nsem is None or nsem == got:
+                ctx.count("c15.popB.explained_by_listed")
+                report_known(tree, name, rq, analysis)
+                return True
         side = "engine+model" if bad_e and bad_m else ("engine" if bad_e else "model")
         mq = tree
         if tree is q and bad_e and name in REWRITES + ["normalize", "simplify"]:
